@@ -17,7 +17,7 @@ class Contract:
                  raises=None, raises_ensures=None, modifies=(), loops=None, inline=False,
                  trusted=False, prop=None, closure=None, note="", param_names=None,
                  allow_any_raise=False, replay=None, cases=None, ghost_params=None, frame=None,
-                 decreases=None, raise_modifies=(), assumes=(), ghost_after=None, inline_callees=()):
+                 decreases=None, raise_modifies=(), assumes=(), ghost_after=None, inline_callees=(), tier="quick"):
         self.key = key
         self.params = dict(params or {})
         self.self_model = self_model
@@ -51,6 +51,7 @@ class Contract:
         self.ghost_after_src = dict(ghost_after or {})
         # callees executed from their real source (not via their contract) while verifying this function
         self.inline_callees = set(inline_callees)
+        self.tier = tier   # 'thorough': only verified in the thorough tier (slow generation)
         self.inline = inline
         self.trusted = trusted
         self.prop = prop
